@@ -385,7 +385,17 @@ def check_cfg(ctx, mexe, mism, fails, dist, samples):
         mism.append({"what": "harness build failed (white-box include of src/source.c)", "detail": msg[-1500:]})
         return 0
     G, H = gen_cfg_cases(ctx.rng, 300 if ctx.tier == "quick" else 10000)
-    lines = ["G %d %d %d %d" % g for g in G] + ["H %d" % h for h in H]
+    # DISPATCH_SOURCE_TYPE_INTERVAL: start NOW or FOREVER, interval >= 1 (ms or frames), leeway permille <= 1000 or UINT64_MAX
+    J = []
+    rng = ctx.rng
+    for _ in range(len(G) // 3):
+        anim = rng.below(2)
+        lim = 31536000000000000 // (16666666 if anim else 1000000)
+        itv = rng.choice([1, 2, 16, 1000, lim - 1, lim, lim + 1, lim // 2, 18446744073709 if not anim else 1106804644, U64 - 1,
+                          rng.range(1, lim), rng.range(1, 10**6), rng.range(1, U64 - 1)])
+        lee = rng.choice([0, 1, 500, 999, 1000, U64 - 1, rng.below(1001)])
+        J.append((rng.choice([0, 0, 0, FOREVER]), itv, lee, anim))
+    lines = ["G %d %d %d %d" % g for g in G] + ["H %d" % h for h in H] + ["J %d %d %d %d" % j for j in J]
     r = common.run([exe], input="\n".join(lines) + "\n", timeout=600)
     out = [l for l in r.stdout.split("\n") if l.strip()]
     if r.returncode != 0 or len(out) != len(lines):
@@ -408,9 +418,12 @@ def check_cfg(ctx, mexe, mism, fails, dist, samples):
     for h, (c1, c2) in zip(H, clk[len(G):]):
         for c in (c1, c2):
             mlines.append("H %d %d %d %d" % (h[0], c[2], c[0], c[1]))
+    for j, (c1, c2) in zip(J, clk[len(G) + len(H):]):
+        for c in (c1, c2):
+            mlines.append("J %d %d %d %d %d" % (j + (c[0],)))
     m = common.run([mexe], input="\n".join(mlines) + "\n", timeout=600)
     mout = [[int(x) for x in l.split()] for l in m.stdout.split("\n") if l.strip()]
-    if m.returncode != 0 or len(mout) != len(G) + 2 * len(H):
+    if m.returncode != 0 or len(mout) != len(G) + 2 * len(H) + 2 * len(J):
         mism.append({"what": "model driver failed (config_create / dispatch_after)", "detail": (m.stderr or "")[-800:]})
         return 0
     kinds = {0: 0, 1: 0, 2: 0}
@@ -446,12 +459,101 @@ def check_cfg(ctx, mexe, mism, fails, dist, samples):
                 fails.append({"key": "after:leeway", "what": "dispatch_after(when=%d): deadline %d target %d: leeway outside [1ms, 60s]" % (h[0], o[3], o[2]), "kind": "after", "when": h[0]})
             if o[2] >= I63:
                 wrap += 1
+    nwrap = 0
+    for i, (j, o) in enumerate(zip(J, obs[len(G) + len(H):])):
+        base = len(G) + 2 * len(H) + 2 * i
+        r1, r2 = mout[base], mout[base + 1]
+        if o != r1 and o != r2:
+            mism.append({"what": "_dispatch_interval_config_create differs from Model/TimerRun.v interval_config_create (evaluated at the uptime readings before and after the call)",
+                         "detail": {"start,interval,leeway,animation": list(j), "impl": o, "model_before": r1, "model_after": r2}})
+        (c1, c2) = clk[len(G) + len(H) + i]
+        clock, tg, dl, iv = o
+        w = None
+        if j[0] == FOREVER:
+            if (tg, dl, iv) != (I63, I63, I63):
+                w = "FOREVER start must give INT64_MAX values"
+        else:
+            if not (1 <= iv <= 31536000000000000):
+                w = "interval %d outside [1, one year]" % iv
+            elif tg % iv != 0 or not (c1[0] < tg <= c2[0] + iv):
+                w = "target %d is not the next multiple of the interval %d after now (%d..%d)" % (tg, iv, c1[0], c2[0])
+            elif not (tg <= dl <= tg + iv):
+                w = "deadline %d outside [target, target + interval]" % dl
+            elif clock != 0:
+                w = "clock %d, interval timers run on the uptime clock" % clock
+            if j[2] <= 1000 and iv * j[2] >= U64:
+                nwrap += 1
+        if w:
+            fails.append({"key": "interval-config:" + w.split()[0], "what": "_dispatch_interval_config_create(start=%d, interval=%d, leeway=%d, animation=%d) -> %s: %s" % (j + (o, w)),
+                          "kind": "icfg", "case": list(j)})
+    dist["interval_config_cases"] = len(J)
+    dist["interval_config_leeway_product_wrapped"] = nwrap
     dist["config_create_cases"] = len(G)
     dist["dispatch_after_cases"] = len(H)
     dist["dispatch_after_kinds(dropped,async,timer)"] = [kinds[0], kinds[1], kinds[2]]
     dist["dispatch_after_out_of_range_when"] = wrap
     samples.append({"config_create": list(G[0]), "impl": obs[0]})
-    return len(G) + len(H)
+    return len(G) + len(H) + len(J)
+
+
+# ---------------------------------------------------------------------------------------------------------
+# kernel side of the timers (src/event/event_epoll.c), white-box harness c11_epoll.c
+
+def check_epoll(ctx, mexe, mism, fails, dist, samples):
+    exe, msg = common.build_harness("c11_epoll", ["c11_epoll.c"], whitebox=True, exclude_objs=("event_epoll.c.o",))
+    if exe is None:
+        mism.append({"what": "harness build failed (white-box include of src/event/event_epoll.c)", "detail": msg[-1500:]})
+        return 0
+    rng = ctx.rng
+    n = 400 if ctx.tier == "quick" else 20000
+    cl, ml = [], ["N 3"]
+    for _ in range(n):
+        k = rng.below(10)
+        i = rng.below(3)
+        if k < 4:
+            tg = rng.choice([1, 10**9 + 7, rng.range(1, 1 << 62), I63 - 1, I63, I63 + 1, U64 - 1])
+            cl.append("a %d %d" % (i, tg)); ml.append("ka %d %d" % (i, tg))
+        elif k < 6:
+            d, nw = rng.choice([1, 1000, I63 - 1, I63]), rng.range(1, 1 << 61)
+            cl.append("A %d %d %d" % (i, d, nw)); ml.append("kA %d %d %d" % (i, d, nw))
+        elif k < 8:
+            cl.append("d %d" % i); ml.append("kd %d" % i)
+        elif k < 9:
+            cl.append("x %d" % i); ml.append("kx %d" % i)
+        else:
+            a, b = rng.below(2), rng.below(2)
+            cl.append("h %d %d %d" % (i, a, b)); ml.append("kh %d %d %d" % (i, a, b))
+    r = common.run([exe], input="\n".join(cl) + "\n", timeout=300)
+    m = common.run([mexe], input="\n".join(ml) + "\n", timeout=300)
+    out = [l for l in r.stdout.split("\n") if l.strip()]
+    mout = [l for l in m.stdout.split("\n") if l.strip()]
+    if r.returncode != 0 or m.returncode != 0 or len(out) != len(cl) or len(mout) != len(cl):
+        mism.append({"what": "harness / model run failed (epoll timers)", "detail": {"rc": [r.returncode, m.returncode], "lines": [len(out), len(mout), len(cl)], "err": (r.stderr or "")[-500:] + (m.stderr or "")[-500:]}})
+        return 0
+    narm = 0
+    for c, l, mm in zip(cl, out, mout):
+        calls, ks, hs, dy = l[1:].split("#")
+        li = []
+        for tk in calls.split():
+            li += [1] if tk == "c" else ([2, int(tk[2:])] if tk[0] == "s" else [3, int(tk[2:])])
+        li += [-1] + [int(x) for x in ks.split()] + [-1] + [int(x) for x in hs.split()] + [-1, int(dy)]
+        mi = [int(x) for x in mm.split()]
+        if li != mi:
+            mism.append({"what": "event_epoll.c timer functions differ from Model/TimerRun.v (timeout_program / merge_timer)",
+                         "detail": {"command": c, "impl": li, "model": mi}})
+            break
+        a = c.split()
+        if a[0] in "aA":
+            tg = int(a[2]) if a[0] == "a" else (int(a[2]) + int(a[3])) % U64
+            kk = [int(x) for x in ks.split()][3 * int(a[1]):3 * int(a[1]) + 3]
+            if tg < I63:
+                narm += 1
+                st = [int(tk[2:]) for tk in calls.split() if tk[0] == "s"]
+                if kk != [1, 1, 1] or st != [tg]:
+                    fails.append({"key": "epoll-arm", "what": "after programming clock %s to %d the timerfd is created/registered/armed = %s and timerfd_settime got %s" % (a[1], tg, kk, st), "kind": "epoll", "command": c})
+    dist["epoll_timer_commands"] = len(cl)
+    dist["epoll_timer_arms_below_forever"] = narm
+    return len(cl)
 
 
 # ---------------------------------------------------------------------------------------------------------
@@ -844,6 +946,8 @@ def correspond(ctx):
     dist["state_machine_kernel_delete_calls"] = ndel
     # 4b. arithmetic of dispatch_source_set_timer / dispatch_after (src/source.c)
     evals += check_cfg(ctx, mexe, mism, fails, dist, samples)
+    # 4c. kernel side of the timers (src/event/event_epoll.c)
+    evals += check_epoll(ctx, mexe, mism, fails, dist, samples)
     # 5. end-to-end oracle through the public API (real time; deadlines read back on the clock they were expressed in)
     e2e, m5 = common.build_harness("c11_e2e", ["c11_e2e.c"], whitebox=False)
     if e2e is None:
